@@ -6,6 +6,7 @@
 -/
 import HSModel.Proofs.StepLemmas
 import HSModel.Proofs.RefineAll
+import HSModel.Proofs.MetaOnly
 namespace HS.C04
 open Abs
 variable (cfg : Config) (o : Oracle)
@@ -170,5 +171,30 @@ theorem concrete_history_keeps (st : Store) (log : List Eff) (a : Abs) (hs : Sim
   have h0 : Holds a q c t := ⟨by rw [hs.rel.bind]; exact hb, by rw [hs.rel.objs]; exact hobj⟩
   obtain ⟨k1, k2⟩ := history_keeps cfg o a hist q c t hh h0
   exact ⟨by rw [← hs2.rel.bind]; exact k1, by rw [← hs2.rel.objs]; exact k2⟩
+
+/-- **Metadata operations and readers never remove or alter an object or a reference, however they
+    interleave.** Any number of threads running `store_metadata`, `delete_metadata` (one format or
+    all), `retrieve_object`, `retrieve_metadata`, `get_hex_digest` with any arguments, from any world,
+    any fault plan, every schedule, every granularity: after every step every object, every pid
+    reference and every cid reference list is exactly as at the start. -/
+theorem metadata_calls_never_touch_objects_under_every_interleaving (calls : List Call)
+    (hc : ∀ c ∈ calls, MetaOrRead c) (w0 : World) (fuel : Nat) (sched : List Nat) (n : Nat) :
+    let cf := (runSchedule fuel { w := w0, ts := calls.map (fun c => TState.fresh (c.prog cfg o)) } sched n).1
+    cf.w.st.objs = w0.st.objs ∧ cf.w.st.pidRefs = w0.st.pidRefs ∧ cf.w.st.cidRefs = w0.st.cidRefs := by
+  intro cf
+  have h0 : SafeConf DocsOnly (fun _ _ => True) (fun w => RefsAs w0.st w.st) (fun _ _ => True)
+      { w := w0, ts := calls.map (fun c => TState.fresh (c.prog cfg o)) } := by
+    refine ⟨⟨rfl, rfl, rfl⟩, ?_⟩
+    intro i t hi
+    simp only at hi
+    rw [List.getElem?_map] at hi
+    cases hci : calls[i]? with
+    | none => rw [hci] at hi; cases hi
+    | some c =>
+      rw [hci] at hi; cases hi
+      exact Prog.safe_of_allEv _ (metaOrRead_docsOnly cfg o c (hc c (List.mem_of_getElem? hci)))
+  have h := (safe_schedule (refsAs_docsOnly w0.st) (fun _ _ _ => trivial) _ fuel sched _ n h0).1
+  exact ⟨h.2.2, h.1, h.2.1⟩
+
 
 end HS.C04
